@@ -100,6 +100,58 @@ def build(run):
                 if rxsmt.captures_real(pat, m["c"]) else None,
                 vacuity="(declare-const c String)\n(assert (str.in_re c %s))" % cells,
                 claim="no braille cell (digit cells included) is a member of the indicator class, so the replacement pass cannot consume an operand's cells")
+
+    # ---- Z-C06-c: a string-template replacement never consumes a braille cell that it does not put back ---------------------------------
+    # for every `NAME.replace_all(text, "template")` of braille.rs: the part of a match OUTSIDE the capture groups that the template
+    # re-inserts cannot contain a braille cell, except the blank cell and the cells the template writes literally
+    seen = set()
+    nsite = 0
+    for m in re.finditer(r"(\w+)\.replace_all\(&?[\w.()]+,\s*(r?\"(?:[^\"\\\\]|\\\\.)*\")\s*\)", b.src):
+        name, repl = m.group(1), slicer.unquote(m.group(2))
+        try:
+            pat, sp = tables.lazy_regex(b, name)
+        except slicer.SliceError:
+            continue
+        if (name, pat, repl) in seen:
+            continue
+        seen.add((name, pat, repl))
+        nsite += 1
+        run.uses(sp)
+        lid = "Z-C06-c.%s.no_cell_consumed" % name + ("" if sum(1 for x in seen if x[0] == name) == 1 else "_%d" % sum(1 for x in seen if x[0] == name))
+        try:
+            ast, ngroups, names = rxsmt.parse(pat)
+            _, _, core = rxsmt.split_anchors(ast)
+            kept_idx = set(int(g) for g in re.findall(r"\$\{?(\d+)\}?", repl))
+            kept_names = set(re.findall(r"\$\{?([A-Za-z_]\w*)\}?", repl))
+            outside = rxsmt.to_smt(rxsmt.erase_groups(core, kept_idx, kept_names))
+        except rxsmt.RxUnsupported as e:
+            run.sample({"lemma": lid, "status": "NOT ENCODED (%s) - outside the claim" % e})
+            run.outside.append("%s: pattern %r not supported by the regex translator (%s)" % (lid, pat, e))
+            continue
+        allowed = sorted(set([0x2800] + [ord(c) for c in repl if 0x2800 <= ord(c) <= 0x28ff]))
+        lost = "(re.diff %s (re.union %s re.none))" % (cells, " ".join('(str.to_re "\\u{%x}")' % cp for cp in allowed))
+        q = "(declare-const s String)\n(assert (str.in_re s %s))\n(assert (str.in_re s (re.++ re.all %s re.all)))" % (outside, lost)
+
+        def w_lost(mdl, pat=pat, repl=repl, name=name, core=core, allowed=allowed):
+            # the model is the part of a match outside the groups; complete it to whole matches holding the same cell and replay those
+            import smt_run
+            lost_cells = [c for c in mdl["s"] if 0x2801 <= ord(c) <= 0x28ff and ord(c) not in allowed]
+            if not lost_cells:
+                return None
+            ncell = lambda x: sum(1 for c in x if 0x2801 <= ord(c) <= 0x28ff)
+            block = ""
+            for _ in range(6):
+                r2 = smt_run.solve('(declare-const t String)\n(assert (str.in_re t %s))\n(assert (str.contains t "\\u{%x}"))\n%s' % (rxsmt.to_smt(core), ord(lost_cells[0]), block), get=("t",), timeout=30)
+                if r2["status"] != "sat":
+                    return None
+                t = r2["model"]["t"]
+                out = rxsmt.replace_all_real(pat, repl, t)
+                if out is not None and ncell(out) < ncell(t):
+                    return ("cell-consumed-outside-groups:" + name, "%s: replace_all(%r, %r) turns %r into %r: a braille cell matched outside the re-inserted groups is deleted" % (name, pat, repl, t, out), {"text": t, "result": out})
+                block += "(assert (not (= t %s)))\n" % smt_str(t)
+            return None
+        run.smt(lid, q, get=("s",), witness=w_lost, claim="what the replacement does not put back holds no braille cell other than blanks and the cells the template writes", vacuous_ok=True, timeout=60)
+    run.bound("Z-C06-c", "all %d distinct (regex, string template) replace_all sites of braille.rs; matches of unbounded length" % nsite)
     # number indicators are not dropped: N / n map to the numeric indicator cell where the code has one
     for tname, key, want in (("UEB_INDICATOR_REPLACEMENTS", "N", "⠼"), ("NEMETH_INDICATOR_REPLACEMENTS", "n", "⠼"), ("VIETNAM_INDICATOR_REPLACEMENTS", "N", "⠼")):
         t = tables.string_map(b.find("static " + tname))
